@@ -108,13 +108,27 @@ CountItems(items) ==
            here == IF it.k \in {"rule", "disj"} THEN CountItems(it.ch) ELSE 1 IN
        here + CountItems(Tail(items))
 
-RECURSIVE SumChecks(_, _)
-SumChecks(line, S) ==
+\* The item "query for block clause did not retrieve any value" of a failed block clause is there or
+\* not depending on Filter records that are not part of the derived record (GuardReport.NormItems,
+\* C09 compares reports modulo these items): the number of SARIF results is therefore known up to
+\* the number of failed block nodes.
+RECURSIVE FailedBlocks(_), FailedBlocksIn(_, _)
+FailedBlocks(n) == (IF n.k = "Block" /\ n.st = "FAIL" THEN 1 ELSE 0) + FailedBlocksIn(n.ch, 1)
+FailedBlocksIn(ch, i) == IF i > Len(ch) THEN 0 ELSE FailedBlocks(ch[i]) + FailedBlocksIn(ch, i + 1)
+RECURSIVE SumLow(_, _), SumHigh(_, _)
+SumLow(line, S) ==
   IF S = {} THEN 0
   ELSE LET p == CHOOSE q \in S : TRUE IN
-       CountItems(Simplify(PDen(line, p[1], p[2]).tree).nc) + SumChecks(line, S \ {p})
-SarifResults(line) ==
-  SumChecks(line, {p \in (1 .. NR(line)) \X (1 .. ND(line)) : OkPair(line, p[1], p[2])})
+       CountItems(NormItems(Simplify(PDen(line, p[1], p[2]).tree).nc)) + SumLow(line, S \ {p})
+SumHigh(line, S) ==
+  IF S = {} THEN 0
+  ELSE LET p == CHOOSE q \in S : TRUE
+           t == PDen(line, p[1], p[2]).tree IN
+       CountItems(Simplify(t).nc) + FailedBlocks(t) + SumHigh(line, S \ {p})
+SOkPairs(line) == {p \in (1 .. NR(line)) \X (1 .. ND(line)) : OkPair(line, p[1], p[2])}
+SarifLow(line) == SumLow(line, SOkPairs(line))
+SarifHigh(line) == SumHigh(line, SOkPairs(line))
+SarifResultsOk(line, n) == SarifLow(line) <= n /\ n <= SarifHigh(line)
 
 JudgeCli(line) ==
   LET scn == Scn(line)
@@ -125,7 +139,7 @@ JudgeCli(line) ==
         IF fin.aborted \/ ~exitOk THEN TRUE
         ELSE CASE obs.view = "perdata" -> obs.wf /\ PerDataOk(line, obs.shown)
                [] obs.view = "perpair" -> obs.wf /\ PerPairOk(line, obs.shown)
-               [] obs.view = "nresults" -> obs.wf /\ obs.nresults = SarifResults(line)
+               [] obs.view = "nresults" -> obs.wf /\ SarifResultsOk(line, obs.nresults)
                [] OTHER -> obs.wf
   IN
   /\ PrintT(<<"CLI", line.i, IF exitOk THEN "ok" ELSE "exit", fin.exit, obs.exit>>)
